@@ -28,6 +28,8 @@ struct Body<'s> {
     /// every statement of every block of the body: (block ordinal in visit order, index in the block, byte span)
     stmts: Vec<Value>,
     block_no: usize,
+    /// every `EXPR as TYPE` cast: span of the whole cast, of the operand, and the target type text
+    casts: Vec<Value>,
 }
 
 /// does the expression contain `?` or `return` outside nested closures? (then it cannot be inlined)
@@ -43,6 +45,11 @@ impl<'ast> Visit<'ast> for Esc {
     }
 }
 impl<'ast, 's> Visit<'ast> for Body<'s> {
+    fn visit_expr_cast(&mut self, e: &'ast syn::ExprCast) {
+        let (a, b) = r(e.ty.span());
+        self.casts.push(json!({"span": rj(e.span()), "expr": rj(e.expr.span()), "ty": &self.src[a..b]}));
+        syn::visit::visit_expr_cast(self, e);
+    }
     fn visit_block(&mut self, b: &'ast syn::Block) {
         let me = self.block_no;
         self.block_no += 1;
@@ -149,7 +156,7 @@ impl<'s> Ix<'s> {
         p.join("::")
     }
     fn push_fn(&mut self, path: String, whole: Span, attrs: &[syn::Attribute], vis: Option<&syn::Visibility>, sig: &syn::Signature, block: &syn::Block) {
-        let mut b = Body { src: self.src, loops: vec![], closures: vec![], macros: vec![], combinators: vec![], stmts: vec![], block_no: 0 };
+        let mut b = Body { src: self.src, loops: vec![], closures: vec![], macros: vec![], combinators: vec![], stmts: vec![], block_no: 0, casts: vec![] };
         b.visit_block(block);
         let (ws, we) = r(whole);
         let after_attrs = match vis {
@@ -166,7 +173,7 @@ impl<'s> Ix<'s> {
         self.items.push(json!({"kind":"fn","path":path,"span":[ws,we],"attrs":attrs_json(attrs,self.src),
             "after_attrs":after_attrs,"sig":rj(sig.span()),"ret":ret,"body":[bs,be],"inputs":inputs,
             "name": sig.ident.to_string(),
-            "loops":b.loops,"closures":b.closures,"macros":b.macros,"combinators":b.combinators,"stmts":b.stmts}));
+            "loops":b.loops,"closures":b.closures,"macros":b.macros,"combinators":b.combinators,"stmts":b.stmts,"casts":b.casts}));
     }
     fn push_simple(&mut self, kind: &str, name: String, whole: Span, attrs: &[syn::Attribute], after_attrs: usize, extra: Value) {
         let path = self.pfx(&name);
